@@ -232,10 +232,38 @@ def run(ctx) -> None:
     c0 = CFG(pb)
     psl = dslice.Slicer(pb, set())
     img = [n for n in c0.nodes if n.kind == "stmt" and isinstance(n.ast, ast.Return) and isinstance(n.ast.value, ast.Dict) and n.ast.value.keys]
-    kube = match.test_nodes(c0, lambda t: "T" if (match.compare_parts(t) and isinstance(match.compare_parts(t)[2], ast.Constant) and match.compare_parts(t)[2].value == "kubernetes"
-                                                  and isinstance(match.compare_parts(t)[1], ast.Eq)) else None)
-    lsf = match.test_nodes(c0, lambda t: "T" if (match.compare_parts(t) and isinstance(match.compare_parts(t)[2], ast.Constant) and match.compare_parts(t)[2].value == "lsf"
-                                                 and isinstance(match.compare_parts(t)[1], ast.Eq)) else None)
+    def backend_test(name: str):
+        def pred(t: ast.AST) -> Optional[str]:
+            cp = match.compare_parts(t)
+            if not cp:
+                return None
+            if isinstance(cp[1], ast.Eq) and isinstance(cp[2], ast.Constant) and cp[2].value == name:
+                return "T"
+            if isinstance(cp[1], ast.In) and isinstance(cp[2], (ast.Tuple, ast.List, ast.Set)) and any(
+                    isinstance(e, ast.Constant) and e.value == name for e in cp[2].elts):
+                return "T"
+            return None
+        return pred
+    kube = match.test_nodes(c0, backend_test("kubernetes"))
+    lsf = match.test_nodes(c0, backend_test("lsf"))
+    # table agreement: every backend whose default options have an 'image' (the container a task runs in) is covered
+    fl16 = ctx.repo.module("python/experiment/model/frontends/flowir.py")
+    dcs = fl16.functions.get("FlowIR.default_component_structure")
+    image_backends = []
+    if dcs is not None:
+        for dct in ast.walk(dcs):
+            if isinstance(dct, ast.Dict):
+                for k, v in zip(dct.keys, dct.values):
+                    if isinstance(k, ast.Constant) and isinstance(v, ast.Dict) and any(
+                            isinstance(k2, ast.Constant) and k2.value == "image" for k2 in v.keys):
+                        image_backends.append(k.value)
+    ctx.floor("C16.R2-required-ingredients", len(image_backends), 2, "backends with an 'image' option in the default component structure")
+    for b in sorted(set(image_backends)):
+        bt = match.test_nodes(c0, backend_test(b))
+        okb = bool(bt) and any(match.only_via_edges(c0, n, bt) and any(l.endswith("[image]") for l in psl.leaves(n.ast.value)) for n in img)
+        ctx.ob("C16.R2-required-ingredients", pb, okb, "%s components hash their image" % b if okb else
+               "the backend '%s' has an image option but postprocess_backend does not put it into the hashed information: two components that run "
+               "the same command in different images get the same strong hash" % b, construct="%s -> image" % b)
     ok = bool(kube) and any(match.only_via_edges(c0, n, kube) and any(l.endswith("[image]") for l in psl.leaves(n.ast.value)) for n in img)
     ctx.ob("C16.R2-required-ingredients", pb, ok, "kubernetes components hash their image" if ok else "the kubernetes image is no longer part of the hash", construct="kubernetes -> image")
     ok = bool(lsf) and any(match.only_via_edges(c0, n, lsf) and any(l.endswith("[dockerImage]") for l in psl.leaves(n.ast.value)) for n in img)
@@ -316,21 +344,53 @@ def run(ctx) -> None:
                "file content is hashed iff strong mode, or a direct (non-produced) file, or a custom embedding function" if ok else
                "the content of files produced by other components is hashed in fuzzy mode (or the guard changed): %s" % (bad[:1] or free[:1]),
                construct="guard of md5_of_file")
-    ph = [v for nm in match.locals_where(fn, lambda v: isinstance(v, ast.Call) and last_attr(v) == "join" and isinstance(v.func.value, ast.Constant)
-                                         and v.func.value.value == "#") for v in match.assigned_value(fn, nm)
-          if isinstance(v, ast.Call) and last_attr(v) == "join"]
-    ok = False
-    for v in ph:
-        if isinstance(v.func.value, ast.Constant) and v.func.value.value == "#" and v.args and isinstance(v.args[0], ast.Tuple):
+    # the fuzzy entry of a produced file: 'fuzzy' # <producer's fuzzy hash> # <file>, as '#'.join((..)) or as an f-string
+    def fuzzy_entry(v: ast.AST):
+        """(hash operand, file operand, form) when v builds the entry"""
+        if isinstance(v, ast.Call) and last_attr(v) == "join" and isinstance(v.func.value, ast.Constant) and v.func.value.value == "#" \
+                and v.args and isinstance(v.args[0], (ast.Tuple, ast.List)) and len(v.args[0].elts) == 3:
             el = v.args[0].elts
-            ok = len(el) == 3 and isinstance(el[0], ast.Constant) and el[0].value == "fuzzy" and isinstance(el[1], ast.Name) \
-                and "fileRef" in source.src(el[2])
-            if ok:
-                src_ = match.assigned_value(fn, el[1].id)
-                ok = any("memoization_hash_fuzzy" in source.src(x) for x in src_)
-    ctx.ob("C16.R4-fuzzy-ignores-produced-content", ph[0] if ph else fn, ok,
-           "fuzzy entry of a produced file = 'fuzzy#<producer.memoization_hash_fuzzy>#<file>'" if ok else
-           "the fuzzy entry of a produced file is no longer built from the producer's fuzzy hash and the file reference")
+            if isinstance(el[0], ast.Constant) and el[0].value == "fuzzy":
+                return el[1], el[2], "join"
+        if isinstance(v, ast.JoinedStr):
+            parts = v.values
+            consts = [p_.value for p_ in parts if isinstance(p_, ast.Constant)]
+            exprs = [p_.value for p_ in parts if isinstance(p_, ast.FormattedValue)]
+            if len(exprs) == 2 and consts and consts[0] == "fuzzy#" and "#" in consts[1:]:
+                return exprs[0], exprs[1], "format"
+        if isinstance(v, ast.BinOp) and isinstance(v.op, ast.Mod) and isinstance(v.left, ast.Constant) and v.left.value == "fuzzy#%s#%s" \
+                and isinstance(v.right, ast.Tuple) and len(v.right.elts) == 2:
+            return v.right.elts[0], v.right.elts[1], "format"
+        return None
+    entries = [(n, fuzzy_entry(n.value)) for n in source.walk_own(fn) if isinstance(n, ast.Assign) and fuzzy_entry(n.value) is not None]
+    ok = False
+    why = "no 'fuzzy#<hash>#<file>' entry found"
+    for (node, (h, f_, form)) in entries:
+        h_src = [h] + ([x for x in match.assigned_value(fn, h.id)] if isinstance(h, ast.Name) else [])
+        from_producer = any("memoization_hash_fuzzy" in source.src(x) for x in h_src)
+        has_file = "fileRef" in source.src(f_)
+        ok = from_producer and has_file
+        why = "" if ok else "it is not built from the producer's memoization_hash_fuzzy and the file reference"
+        # a producer that has no fuzzy hash (its own input is missing) must not yield an entry: '#'.join raises TypeError on None (the
+        # surrounding handler turns that into 'no hash'); a formatting expression renders 'None' and needs an explicit test
+        if ok and form != "join":
+            en = [n for n in cfg.nodes if n.kind == "stmt" and n.ast is node]
+            hname = h.id if isinstance(h, ast.Name) else None
+            none_tests = match.test_nodes(cfg, lambda t, h=h, hname=hname: (
+                "F" if (isinstance(t, ast.UnaryOp) and isinstance(t.op, ast.Not) and source.src(t.operand) == source.src(h)) else
+                "T" if source.src(t) == source.src(h) else
+                ("F" if isinstance(match.compare_parts(t)[1], (ast.Is, ast.Eq)) else "T")
+                if (match.compare_parts(t) and source.src(match.compare_parts(t)[0]) == source.src(h)
+                    and isinstance(match.compare_parts(t)[2], ast.Constant) and match.compare_parts(t)[2].value is None) else None))
+            guarded = bool(en) and bool(none_tests) and match.only_via_edges(cfg, en[0], none_tests)
+            if not guarded:
+                ok = False
+                why = ("the producer's fuzzy hash is formatted into the entry without a None test: a producer that cannot be hashed (its own input "
+                       "is missing) contributes the text 'fuzzy#None#<file>', so every component downstream of it gets a fuzzy hash - the same "
+                       "one for consumers of different un-hashable producers - instead of none")
+    ctx.ob("C16.R4-fuzzy-ignores-produced-content", entries[0][0] if entries else fn, ok,
+           "fuzzy entry of a produced file = 'fuzzy#<producer.memoization_hash_fuzzy>#<file>', and no entry when the producer has no hash" if ok else
+           "the fuzzy entry of a produced file: %s" % why, construct="fuzzy entry of a produced file")
 
     # ---------------- R5 -------------------------------------------------------------------------------
     sites = [s for s in sub.find_sites(fn, include_nested=False) if not sub.is_literal_key(s)]
